@@ -192,7 +192,7 @@ PLAN_ENTRY = {'stages': [
     ]}
 
 CLAIM = {
-    'text': 'Model checking: Stations.tla transcribes the station container (vector + reversed flag) and the refinement loop over an abstract camber coordinate; TLC shows for every interleaving that the stored order is monotone, the working end is the flag end, nothing pushed is lost, stations respect the gap, the stack is bounded and refinement terminates when symmetric spanning rays exist, and (negative configuration) that it can loop forever when they may fail - a counterexample that was reproduced on the real refine_stations (known finding). Binding: TLC enumerates the configuration space of a parametric family of sections (5 chords from 0.5 to 50, 4 camber heights incl. symmetric, 3 thicknesses, sampling densities, both CamberOrient, both FaceOrient, every pair of the six closed EdgeLocate methods, open sections with OpenEdge / OpenIntersectGap); each configuration is expanded into the exact envelope-of-circles polygon and analysed five times (as is, rigidly moved, reversed, two start-vertex rotations) in a limited child process; TLC judges: every station is inscribed (|dist(centre, section) - r| within tolerance), contacts on the section one radius from the centre and on opposite sides, stations strictly advance, edge points finite, on the section and at the ends of the camber curve, upper + lower = perimeter with ends at the edge points and upper on the requested side, centres on the generating camber and radii on the law (so max thickness is recovered), and all of it unchanged across the five variants.',
+    'text': 'Model checking: Stations.tla transcribes the station container (vector + reversed flag) and the refinement loop over an abstract camber coordinate; TLC shows for every interleaving that the stored order is monotone, the working end is the flag end, nothing pushed is lost, stations respect the gap, the stack is bounded and refinement terminates when symmetric spanning rays exist, and (negative configuration) that it can loop forever when they may fail - a counterexample that was reproduced on the real refine_stations (known finding). Binding: TLC enumerates the configuration space of a parametric family of sections (5 chords from 0.5 to 50, 4 camber heights incl. symmetric, 3 thicknesses, sampling densities, both CamberOrient, both FaceOrient, every pair of the six closed EdgeLocate methods, open sections with OpenEdge / OpenIntersectGap); each configuration is expanded into the exact envelope-of-circles polygon and analysed five times (as is, rigidly moved, reversed, two start-vertex rotations) in a limited child process; TLC judges: every station is inscribed (|dist(centre, section) - r| within tolerance), contacts on the section one radius from the centre and on opposite sides, stations strictly advance, edge points finite, on the section and at the ends of the camber curve, upper + lower = perimeter with ends at the edge points and upper on the requested side, centres on the generating camber and radii on the law (so max thickness is recovered), and all of it unchanged across the five variants. Further configurations: opposite-hand (mirrored) sections, a moved variant 5e5 chords from the origin, and a coarse analysis tolerance above the nose radius (termination).',
     'design_ref': 'DESIGN.md section 6 C10 and 12.3',
     'note': 'Trusted: TLC; derived distances via engeom queries; calibrated tolerances. This property is only partly inside the technique family: the discrete skeleton (container, refinement, ordering, partition) is model-checked, the geometric accuracy clauses are quantised trace invariants.',
     'technique': 'TLA+ L2 model of the station container/refinement model-checked by TLC (safety + liveness, negative model) + TLC trace validation of recorded analyses against L1 clauses',
